@@ -45,8 +45,8 @@ func init() {
 	reg("C06", ruleParallelSlicesStayAligned, ruleParseCachePerPackage, ruleOptionalDeref(evolutionFiles, "NP1", 3), ruleWrapperRecursion, ruleChangeKindsConsumed, ruleChangeDataUsed, ruleComparersConsultTheirData, ruleE3(evoScope, "E3"), ruleE2(evoScope, "E2"), ruleE5(evoScope, "E5"), ruleMapOrderScoped, rulePrunesPartial(evolutionFiles, "V5", 3))
 	reg("C04", ruleNoRunTimeGlobals, ruleOneSchemaFunction, ruleMarshalCoverage, ruleSchemaCanonical, rulePrunes(schemaFiles, "V5", 2), ruleRewriterDescends(schemaFiles, "V8", 2), ruleStateMachineSchemaCheck)
 	reg("C01", rulePlan, ruleRecordOrder, ruleDirectionDuality, ruleCppPrimitiveFamilies, ruleStepFraming, ruleEmptyBatchGuard, ruleEndStream, ruleTrivialRecordTrait, ruleCppEnumUnderlyingType)
-	reg("C16", ruleEndStream, ruleStepFraming)
-	reg("C17", ruleEmptyBatchGuard, ruleStepFraming, ruleFallbackBatchTruncates)
+	reg("C16", ruleBatchReadReportsCounter, ruleEndStream, ruleStepFraming)
+	reg("C17", ruleBatchReadReportsCounter, ruleEmptyBatchGuard, ruleStepFraming, ruleFallbackBatchTruncates)
 	reg("C15", ruleStateMachineSchemaCheck, ruleMarshalCoverage, ruleSchemaCanonical, rulePrunes(schemaFiles, "V5", 2), ruleRewriterDescends(schemaFiles, "V8", 2), rulePreviousSchemasPositional)
 	reg("C03", ruleEmittedSymbols, rulePlan, ruleJsonKinds, ruleTrivialRecordTrait, ruleJsonNamesAreModelNames, ruleCppEnumUnderlyingType)
 	reg("C08", ruleGeneralizeUnderlying, ruleOptionalDeref(backendFiles, "NP1", 20), ruleDocstringQuotePadding, ruleEmittedSymbols, ruleSwitchDefaults(backendFiles, "P4", 25), ruleReservedTables, ruleIdentifierHelpers, ruleDependenciesFirst, ruleOptionGating, ruleUniquenessVsMangling)
